@@ -19,7 +19,7 @@ def shards(tier):
 
 def floors(tier):
     return {"cases": 5000, "padded": 1500, "pad_smaller_or_negative": 1500, "with_dot": 500, "error_paths": 1500,
-            "batches": 2000, "vocabulary_object_reused": 500, "vocabulary_grown_in_place": 1000}
+            "batches": 2000, "vocabulary_object_reused": 500, "vocabulary_grown_in_place": 1000, "with_trailing_dot": 200}
 
 
 def run(ctx):
@@ -52,6 +52,9 @@ def run(ctx):
         if '.' in stoi and len(toks) >= 2 and rng.random() < 0.5:
             toks.insert(rng.randint(1, len(toks) - 1), '.')
             ctx.count("with_dot")
+        if '.' in stoi and toks and toks[-1] != '.' and rng.random() < 0.12:
+            toks.append('.')        # one trailing dot: split_selfies yields it as an item, so it is a symbol like any other
+            ctx.count("with_trailing_dot")
         s = ''.join(toks)
         L = len(toks)
         pad = rng.choice([-5, -1, 0, L - 1, L, L + 1, L + 5, L + 20])
